@@ -327,6 +327,44 @@ func streamOps(o *Out, r *rand.Rand, n int, thorough bool) {
 			}
 		}
 	}
+	// chains: a + b + c is (a + b) + c - every + decides between concatenation, float64 and int64 on ITS two operands
+	for _, c := range []struct {
+		src  string
+		want interface{}
+	}{{"1 + 2 + \"a\"", "3a"}, {"1 + 2.5 + \"x\"", "3.5x"}, {"\"a\" + 1 + 2", "a12"}, {"1 + \"a\" + 2", "1a2"}, {"9223372036854775807 + 1 + \"!\"", "-9223372036854775808!"}, {"1 + 2 + 3 + \"x\"", "6x"},
+		{"1 + 2 + 3 + 4.5", 10.5}, {"0.5 + 1 + \"s\" + 1 + 2", "1.5s12"}, {"a + b + \" items\"", "3 items"}, {"a + b + c + \"\"", "6"}, {"a * b + c + \"!\"", "5!"}, {"1 - 2 + \"a\"", "-1a"}} {
+		out := runScript(c.src, map[string]interface{}{"a": int64(1), "b": int64(2), "c": int64(3)}, nil)
+		o.Sum.Evaluations++
+		o.Sum.Hist["class:plus-chain"]++
+		if out.panicked || out.err != nil || !sameValue(c.want, out.val) {
+			o.Fail(Failure{Oracle: "string-concat", Key: "plus-chain", Input: c.src + "  (a = 1, b = 2, c = 3)", Detail: fmt.Sprintf("left to right, pair by pair, the result is %v (%T); the interpreter gave %v (%T) err %v", c.want, c.want, out.val, out.val, out.err)})
+		}
+	}
+	{
+		var pool []interface{}
+		for _, v := range vals.All() {
+			switch x := v.(type) {
+			case int64, float64:
+				pool = append(pool, v)
+			case string:
+				if len(x) < 8 {
+					pool = append(pool, v)
+				}
+			}
+		}
+		for i := 0; i < 400 && len(pool) > 0; i++ {
+			vars := map[string]interface{}{"a": pool[r.Intn(len(pool))], "b": pool[r.Intn(len(pool))], "c": pool[r.Intn(len(pool))], "d": pool[r.Intn(len(pool))]}
+			for _, pair := range [][2]string{{"a + b + c", "(a + b) + c"}, {"a + b + c + d", "((a + b) + c) + d"}, {"a - b + c", "(a - b) + c"}} {
+				chain, paren := runScript(pair[0], vars, nil), runScript(pair[1], vars, nil)
+				o.Sum.Evaluations++
+				o.Sum.Hist["class:plus-chain-vs-parenthesised"]++
+				if chain.panicked || paren.panicked || (chain.err == nil) != (paren.err == nil) || (chain.err == nil && (!sameValue(paren.val, chain.val) || fmt.Sprintf("%T", paren.val) != fmt.Sprintf("%T", chain.val))) {
+					o.Fail(Failure{Oracle: "string-concat", Key: "plus-chain", Input: fmt.Sprintf("%s with a = %#v, b = %#v, c = %#v, d = %#v", pair[0], vars["a"], vars["b"], vars["c"], vars["d"]),
+						Detail: fmt.Sprintf("%s gives %v (%T); the chain gives %v (%T) (errors %v / %v)", pair[1], paren.val, paren.val, chain.val, chain.val, paren.err, chain.err)})
+				}
+			}
+		}
+	}
 	// integers of the other Go kinds (host values, bytes of a []byte, struct fields) against floats and strings, both orders: float64
 	// as soon as one operand is a float, concatenation with a string - whichever side the integer is on
 	{
